@@ -4,6 +4,7 @@ package props
 
 import (
 	"bytes"
+	"encoding/json"
 	"fmt"
 	"io"
 	"reflect"
@@ -411,6 +412,51 @@ func checkC20(c CaseC20, info *Info) *Failure {
 	}
 	if v, e := x2jw.ValuesForTag(string(doc), c.Tag); e != nil || !compareVals(expandLists(v), cv, true) {
 		return mism("x2j-wrapper.ValuesForTag", sortedCanon(expandLists(v)), sortedCanon(cv))
+	}
+	// the remaining document-level forms: each is the decoder followed by a function checked above
+	if v, e := x2jw.ReaderValuesForTag(bytes.NewReader(doc), c.Tag); e != nil || !compareVals(expandLists(v), cv, true) {
+		return mism("x2j-wrapper.ReaderValuesForTag", sortedCanon(expandLists(v)), sortedCanon(cv))
+	}
+	wantShort := core.PathForKeyShortest(c.Tag)
+	for name, f := range map[string]func() (string, error){
+		"PathForTagShortest":     func() (string, error) { return x2jw.PathForTagShortest(string(doc), c.Tag) },
+		"BytePathForTagShortest": func() (string, error) { return x2jw.BytePathForTagShortest(doc, c.Tag) },
+	} {
+		p, e := f()
+		ok := e == nil && (p == "") == (wantShort == "") && len(strings.Split(p, ".")) == len(strings.Split(wantShort, "."))
+		if ok && p != "" {
+			ok = false
+			for _, q := range cp {
+				ok = ok || q == p
+			}
+		}
+		if !ok {
+			return mism("x2j-wrapper."+name, p, wantShort)
+		}
+	}
+	for _, attrs := range []bool{false, true} {
+		wantAt := x2jw.ValuesAtKeyPath(copyMap(core), dpath, attrs)
+		if v, e := x2jw.ValuesAtTagPath(string(doc), dpath, attrs); e != nil || !compareVals(v, wantAt, true) {
+			return mism(fmt.Sprintf("x2j-wrapper.ValuesAtTagPath(getAttrs=%v)", attrs), sortedCanon(v), sortedCanon(wantAt))
+		}
+	}
+	for _, recast := range []bool{false, true} {
+		cm := core
+		if recast {
+			cm = coreCast
+		}
+		wji, wjerr := cm.JsonIndent("", "  ")
+		if s, e := x2jw.DocToJsonIndent(string(doc), recast); !eqErr(e, wjerr) || (e == nil && s != string(wji)) {
+			return mism("x2j-wrapper.DocToJsonIndent", s, string(wji))
+		}
+		smi, smerr := json.MarshalIndent(map[string]interface{}(cm), "", "  ")
+		if s, e := x2jw.ToJsonIndent(bytes.NewReader(doc), recast); !eqErr(e, smerr) || (e == nil && s != string(smi)) {
+			return mism("x2j-wrapper.ToJsonIndent", s, string(smi))
+		}
+		wj, wjerr2 := cm.Json()
+		if s, e := x2jw.XmlBufferToJson(bytes.NewBuffer(append([]byte(nil), doc...)), recast); !eqErr(e, wjerr2) || (e == nil && s != string(wj)) {
+			return mism("x2j-wrapper.XmlBufferToJson", s, string(wj))
+		}
 	}
 
 	// ---------------- j2x on the JSON text of the value
